@@ -141,6 +141,58 @@ pub fn run_syntax(max_len: usize, rep: &mut AttrReport) {
     rec(&mut vec![], max_len, rep);
 }
 
+// ---- tag names: lower-casing, exact spelling, reads after set_tag_name, the end tag follows the rename ----
+fn reparse_named(doc: &[u8]) -> Option<(String, Model, bool)> {
+    let l = Rc::new(RefCell::new(None));
+    let l2 = l.clone();
+    let settings = Settings::new().append_element_content_handler(element!("*", move |el| { if l2.borrow().is_none() { *l2.borrow_mut() = Some((el.tag_name_preserve_case(), el.attributes().iter().map(|a| (a.name(), a.value())).collect(), el.is_self_closing())); } Ok(()) }));
+    let mut rw = HtmlRewriter::new(settings, |_: &[u8]| {});
+    let _ = rw.write(doc);
+    let _ = rw.end();
+    let r = l.borrow().clone();
+    r
+}
+pub fn run_names(rep: &mut AttrReport) {
+    let names = ["x", "X", "xY", "H1", "x-y", "Xyzzyxyzzyxyzzy", "a:b", "x\u{e9}"];
+    let renames = [None, Some("Zq"), Some("h2"), Some("w-\u{e9}")];
+    for n in names {
+        for rn in renames {
+            for tail in [">", " a=1>", "/>", " />"] {
+                if rep.violations.len() >= 5 { return; }
+                rep.cases += 1;
+                let doc = format!("<{n}{tail}t</{n}>u");
+                let seen = std::rc::Rc::new(std::cell::RefCell::new(vec![]));
+                let s2 = seen.clone();
+                let out = std::rc::Rc::new(std::cell::RefCell::new(vec![]));
+                let o2 = out.clone();
+                let settings = Settings::new().append_element_content_handler(element!("*", move |el| {
+                    let mut v = vec![el.tag_name(), el.tag_name_preserve_case()];
+                    if let Some(r) = rn { el.set_tag_name(r)?; v.push(el.tag_name()); v.push(el.tag_name_preserve_case()); }
+                    s2.borrow_mut().push(v);
+                    Ok(())
+                }));
+                let ok = { let mut rw = HtmlRewriter::new(settings, move |c: &[u8]| o2.borrow_mut().extend_from_slice(c)); rw.write(doc.as_bytes()).is_ok() && rw.end().is_ok() };
+                let mut want = vec![n.to_ascii_lowercase(), n.to_string()];
+                if let Some(r) = rn { want.push(r.to_ascii_lowercase()); want.push(r.to_string()); }
+                let got = seen.borrow().clone();
+                let new_name = rn.unwrap_or(n);
+                let want_out = if rn.is_some() { format!("<{new_name}..t</{new_name}>u") } else { doc.clone() };
+                let got_out = String::from_utf8_lossy(&out.borrow()).into_owned();
+                // a renamed start tag is re-serialised (whitespace inside the tag may be normalised): same name, same attributes and
+                // self-closing flag on re-parse, and the end tag follows the rename
+                let out_ok = if rn.is_some() {
+                    let back = reparse_named(got_out.as_bytes());
+                    got_out.starts_with(&format!("<{new_name}")) && got_out.ends_with(&format!("t</{new_name}>u"))
+                        && back == Some((new_name.to_string(), if tail.contains("a=1") { vec![("a".to_string(), "1".to_string())] } else { vec![] }, tail.contains('/')))
+                } else { got_out == doc };
+                if !ok || got != vec![want.clone()] || !out_ok {
+                    rep.violations.push(format!("{{\"what\":\"tag_name()/tag_name_preserve_case() or the renamed output differ from the tag's spelling (attributes() / name reads)\",\"input\":{:?},\"cuts\":null,\"detail\":{:?}}}", doc, format!("rename {:?}: got {:?} want {:?}; out {:?} want {:?}", rn, got, want, got_out, want_out)));
+                }
+            }
+        }
+    }
+}
+
 pub struct AttrReport { pub cases: u64, pub violations: Vec<String> }
 fn viol(what: &str, tag: &str, script: &[Op], detail: String) -> String {
     format!("{{\"what\":{:?},\"input\":{:?},\"script\":{:?},\"detail\":{:?}}}", what, tag, format!("{:?}", script), detail)
@@ -149,6 +201,7 @@ fn viol(what: &str, tag: &str, script: &[Op], detail: String) -> String {
 pub fn run_attrs(max_attrs: usize, max_ops: usize) -> AttrReport {
     let mut rep = AttrReport { cases: 0, violations: vec![] };
     run_syntax(if max_attrs >= 4 { 7 } else { 6 }, &mut rep);
+    run_names(&mut rep);
     let mut tags: Vec<(String, Model)> = vec![];
     fn rec(cur: &mut Vec<usize>, max: usize, tags: &mut Vec<(String, Model)>) {
         let mut s = String::from("<x");
